@@ -31,15 +31,58 @@ def run_check(prop: str, tier: str, seed: int) -> int:
         repo = Repo()
         ctx = Ctx(prop, tier, seed, repo)
         mod.run(ctx)
-        extra = None
-        if tier == "thorough" and hasattr(mod, "thorough"):
-            extra = mod.thorough(ctx)
+        extra: dict | None = None
+        if tier == "thorough":
+            extra = {}
+            if hasattr(mod, "thorough"):
+                extra.update(mod.thorough(ctx) or {})
+            extra.update(thorough_selftest(ctx))
         return finish(ctx, mod.EXPLANATION, mod.ASSUMPTIONS, extra)
     except AnalysisError as e:
         return analysis_error(prop, tier, seed, str(e), t0)
     except Exception as e:  # a crash of the checker is never a verdict
         traceback.print_exc()
         return analysis_error(prop, tier, seed, f"checker crashed: {type(e).__name__}: {e}", t0)
+
+
+def thorough_selftest(ctx: Ctx) -> dict:
+    """Thorough tier: besides the complete rule set, prove on this very tree that the rule set still
+    has teeth - every recorded single-edit variant of the property's anchored code (sa/variants) and
+    every independently written breaking change kept under /verif/seeded must be reported, and every
+    behaviour-preserving variant must stay silent.  Only meaningful when the tree itself is clean:
+    on a tree with violations the verdict is the violation."""
+    if any(not o.ok for o in ctx.obligations) and _unlisted_violations(ctx):
+        return {"selftest": {"skipped": "the current tree has violations; sensitivity is measured on a clean tree only"}}
+    if os.environ.get("VERIF_REPO"):
+        return {"selftest": {"skipped": "nested run"}}
+    from .mutants import selftest
+
+    results, bad = selftest([ctx.prop])
+    from collections import Counter
+
+    cnt = Counter(r["status"] for r in results)
+    summary = {
+        "variants_run": len(results),
+        "by_status": dict(cnt),
+        "fire_expected": sum(1 for r in results if r.get("expect") == "fire"),
+        "silent_expected": sum(1 for r in results if r.get("expect") == "silent"),
+        "seeded_changes": sorted(r["vid"] for r in results if str(r.get("vid", "")).startswith("seeded:")),
+        "problems": [r for r in results if r["status"] in ("MISSED", "FALSE-ALARM", "broken-variant")][:10],
+        "samples": [{k: r.get(k) for k in ("vid", "expect", "status", "report")} for r in results[:6]],
+    }
+    if bad:
+        raise AnalysisError(
+            "checker self-test failed on this tree (sensitivity lost or false alarm on a behaviour-preserving variant): "
+            + "; ".join(f"{r['vid']}={r['status']}" for r in summary["problems"][:5])
+        )
+    return {"selftest": summary}
+
+
+def _unlisted_violations(ctx: Ctx) -> bool:
+    from .report import load_known
+
+    known = {f"{k['rule']}|{k['where']}|{k['construct']}" for k in load_known() if k.get("property") == ctx.prop and k.get("status") == "known"}
+    return any((not o.ok) and o.key not in known for o in ctx.obligations)
 
 
 def main(argv: list[str] | None = None) -> int:
